@@ -57,7 +57,11 @@ func (c *Ctx) errflow(exc map[string]string, rels ...string) {
 func (c *Ctx) errflowFunc(f *ssa.Function, exc map[string]string) {
 	ord := map[string]int{}
 	mk := func(kind string, cl *ssa.Call) string {
-		k := fmt.Sprintf("%s %s %s", fnName(f), kind, shortQ(callQName(&cl.Call)))
+		callee := shortQ(callQName(&cl.Call))
+		if callee == "" {
+			callee = "call through " + shape(cl.Call.Value, 2)
+		}
+		k := fmt.Sprintf("%s %s %s", fnName(f), kind, callee)
 		ord[k]++
 		if ord[k] > 1 {
 			k = fmt.Sprintf("%s#%d", k, ord[k])
@@ -91,6 +95,18 @@ func (c *Ctx) errflowFunc(f *ssa.Function, exc map[string]string) {
 		q := callQName(&cl.Call)
 		sc := cl.Call.StaticCallee()
 		inMod := (sc != nil && inModule(sc)) || (cl.Call.IsInvoke() && cl.Call.Method.Pkg() != nil && strings.HasPrefix(cl.Call.Method.Pkg().Path(), modPath))
+		if !inMod && sc == nil && !cl.Call.IsInvoke() {
+			// a call through a function value held in a field of one of the module's own structs
+			// (callbacks such as a library resolver): its error obeys the same discipline
+			if ld, ok := cl.Call.Value.(*ssa.UnOp); ok && ld.Op == token.MUL {
+				if fa, ok := ld.X.(*ssa.FieldAddr); ok {
+					if tn, _, ok := fieldOf(fa); ok && tn != "" {
+						inMod = true
+						q = "(field) " + shape(cl.Call.Value, 2)
+					}
+				}
+			}
+		}
 		if !inMod && !errflowLib[q] {
 			return
 		}
